@@ -71,7 +71,7 @@ def _preexec(fsize_limit, as_limit):
 
 
 def run(argv, cwd, stdin=None, env_extra=None, timeout=TIMEOUT, stdout_path=None,
-        fsize_limit=None, as_limit=None, env_remove=()):
+        fsize_limit=None, as_limit=None, env_remove=(), executable=None):
     """Run argv; returns Result.  stdin: None -> /dev/null, bytes -> piped."""
     env = dict(BASE_ENV)
     if env_extra:
@@ -83,7 +83,7 @@ def run(argv, cwd, stdin=None, env_extra=None, timeout=TIMEOUT, stdout_path=None
     if stdout_path is not None:
         out_fh = open(stdout_path, "wb")
     ru0 = resource.getrusage(resource.RUSAGE_CHILDREN).ru_maxrss
-    p = subprocess.Popen(argv, cwd=cwd, env=env,
+    p = subprocess.Popen(argv, cwd=cwd, env=env, executable=executable,
                          stdin=subprocess.PIPE if stdin is not None else subprocess.DEVNULL,
                          stdout=out_fh if out_fh else subprocess.PIPE, stderr=subprocess.PIPE,
                          preexec_fn=_preexec(fsize_limit, as_limit))
@@ -103,8 +103,11 @@ def run(argv, cwd, stdin=None, env_extra=None, timeout=TIMEOUT, stdout_path=None
     wall = time.time() - t0
     rc = p.returncode
     if out_fh:
-        with open(stdout_path, "rb") as fh:
-            out = fh.read()
+        if stdout_path in ("/dev/full", "/dev/null"):
+            out = b""
+        else:
+            with open(stdout_path, "rb") as fh:
+                out = fh.read()
     ru1 = resource.getrusage(resource.RUSAGE_CHILDREN).ru_maxrss
     status, sig = (rc, None) if rc >= 0 else (None, -rc)
     return Result(list(argv), status, sig, out or b"", err or b"", timed_out, wall, max(ru0, ru1))
@@ -143,3 +146,51 @@ class Sandbox:
         p = os.path.join(self.path, name)
         os.makedirs(p, exist_ok=True)
         return p
+
+
+def run_pty(argv, cwd, env_extra=None, timeout=TIMEOUT):
+    """Run argv with stdout on a pseudo-terminal (isatty() true, output
+    post-processing off so bytes arrive unchanged)."""
+    import pty
+    import select
+    import termios
+    env = dict(BASE_ENV)
+    if env_extra:
+        env.update(env_extra)
+    master, slave = pty.openpty()
+    attrs = termios.tcgetattr(slave)
+    attrs[1] = attrs[1] & ~termios.OPOST          # no NL -> CRNL translation
+    termios.tcsetattr(slave, termios.TCSANOW, attrs)
+    t0 = time.time()
+    p = subprocess.Popen(argv, cwd=cwd, env=env, stdin=subprocess.DEVNULL, stdout=slave, stderr=subprocess.PIPE,
+                         preexec_fn=_preexec(None, None))
+    os.close(slave)
+    out = bytearray()
+    err = bytearray()
+    timed_out = False
+    fds = {master: out, p.stderr.fileno(): err}
+    while fds:
+        left = timeout - (time.time() - t0)
+        if left <= 0:
+            timed_out = True
+            try:
+                os.killpg(p.pid, signal.SIGKILL)
+            except OSError:
+                pass
+            break
+        r, _, _ = select.select(list(fds), [], [], min(left, 1.0))
+        for fd in r:
+            try:
+                chunk = os.read(fd, 65536)
+            except OSError:
+                chunk = b""
+            if not chunk:
+                del fds[fd]
+            else:
+                fds[fd] += chunk
+    p.wait()
+    os.close(master)
+    p.stderr.close()
+    rc = p.returncode
+    status, sig = (rc, None) if rc >= 0 else (None, -rc)
+    return Result(list(argv), status, sig, bytes(out), bytes(err), timed_out, time.time() - t0, 0)
